@@ -25,6 +25,7 @@ type c14Req struct {
 	Reads       []int    `json:"reads"`                // handler buffer sizes; it stops at the first error
 	Inner       bool     `json:"inner,omitempty"`      // goes to the route that carries a second BodyLimit instance
 	Close       bool     `json:"close,omitempty"`      // the handler closes the body before it returns
+	Copy        bool     `json:"copy,omitempty"`       // the handler streams the body with io.Copy instead of Read calls
 	Nested      *c14Req  `json:"nested,omitempty"`     // served by the handler, on the same application, ...
 	NestAfter   int      `json:"nest_after,omitempty"` // ... before its read number NestAfter
 }
@@ -105,11 +106,20 @@ func c14EncResps(l []c14Resp) string {
 	return strings.Join(parts, " ")
 }
 
+type c14Sink struct{ chunks [][]byte }
+
+func (s *c14Sink) Write(b []byte) (int, error) {
+	s.chunks = append(s.chunks, append([]byte(nil), b...))
+	return len(b), nil
+}
+
 type c14State struct {
-	rq   *c14Req
-	seen []c14Resp
-	ran  bool
-	sub  func(*c14Req) // serves a nested request on the same application
+	rq      *c14Req
+	copied  [][]byte // io.Copy mode: what reached the sink
+	copyErr int      // io.Copy mode: class of the error io.Copy returned (1 = clean end)
+	seen    []c14Resp
+	ran     bool
+	sub     func(*c14Req) // serves a nested request on the same application
 }
 
 type c14Key struct{}
@@ -133,6 +143,29 @@ func c14Run(ci any) Result {
 		st.ran = true
 		body := ctx.Request().Body
 		ret := error(nil)
+		if st.rq.Copy {
+			// the handler streams the body with io.Copy (which prefers the source's WriteTo, if it has one)
+			if st.rq.Nested != nil {
+				st.sub(st.rq.Nested)
+			}
+			sink := &c14Sink{}
+			_, err := io.Copy(sink, body)
+			st.copied = sink.chunks
+			st.copyErr = c14ErrClass(err)
+			if st.copyErr == 0 {
+				st.copyErr = 1 // io.Copy reports a clean end-of-body as nil
+			}
+			if st.copyErr == 3 {
+				ret = err
+			}
+			if st.rq.Close {
+				body.Close()
+			}
+			if ret != nil {
+				return ret
+			}
+			return ctx.NoContent(200)
+		}
 		for k, sz := range st.rq.Reads {
 			if st.rq.Nested != nil && k == st.rq.NestAfter {
 				st.sub(st.rq.Nested)
@@ -183,6 +216,25 @@ func c14Run(ci any) Result {
 		idx := len(served)
 		served = append(served, c14Served{rq: rq}) // pre-order: the outer request before the one nested in it
 		e.ServeHTTP(rec, req)
+		if rq.Copy && st.ran {
+			// rebuild the per-read view from the underlying reader's answers: io.Copy passes every read with
+			// data on to the sink and stops at the first error
+			var all, und []byte
+			for _, ch := range st.copied {
+				all = append(all, ch...)
+			}
+			for k, a := range rd.log {
+				und = append(und, a.data...)
+				e := 0
+				if k == len(rd.log)-1 {
+					e = st.copyErr
+				}
+				st.seen = append(st.seen, c14Resp{a.data, e})
+			}
+			if string(all) != string(und) {
+				st.seen = append(st.seen, c14Resp{all, 2}) // the sink got other bytes than the body reader served
+			}
+		}
 		served[idx] = c14Served{rq: rq, log: rd.log, seen: st.seen, ran: st.ran, code: rec.Code}
 	}
 	for i := range c.Reqs {
@@ -260,6 +312,17 @@ func c14Run(ci any) Result {
 			for k := range sv.seen {
 				if string(sv.seen[k].data) != string(sv.log[k].data) {
 					fail(i, fmt.Sprintf("bytes altered at read %d", k))
+				}
+			}
+		}
+		if rq.Copy {
+			tags = append(tags, "io-copy")
+		}
+		if int64(realLen) > limit && !saw413 {
+			// a handler that reached the end of the body must have been told
+			for _, sn := range sv.seen {
+				if sn.err == 1 {
+					fail(i, fmt.Sprintf("the body has %d > %d bytes but the handler was given a clean end-of-body after %d bytes", realLen, limit, cum))
 				}
 			}
 		}
@@ -415,6 +478,7 @@ func c14Gen(r *rand.Rand, tier string) []any {
 				rq.Inner = true
 			}
 			rq.Close = r.Intn(6) == 0
+			rq.Copy = r.Intn(5) == 0
 			if r.Intn(8) == 0 {
 				n := c14GenReq(r, L)
 				n.Inner = c.InnerStr != "" && r.Intn(2) == 0
